@@ -43,6 +43,7 @@ type vxFault struct {
 	Component string `json:"component"` // sensor | rpm | pwmread | pwmwrite | modewrite
 	Kind      string `json:"kind"`      // error | garbage | ignored
 	Window    int    `json:"window"`    // control-cycle window index after regulation began
+	Persist   bool   `json:"persist,omitempty"` // the fault stays active until the process ends (still active at shutdown)
 }
 
 type vxJob struct {
@@ -363,6 +364,9 @@ func TestVX_daemonChild(t *testing.T) {
 				time.Sleep(start)
 				active[f.Component] = f.Kind
 				setCmdModes()
+				if f.Persist {
+					return
+				}
 				time.Sleep(vxTick)
 				delete(active, f.Component)
 				restore()
